@@ -120,6 +120,9 @@ class LoopMixin:
         if n.orelse:
             raise EngineError("for/else")
         def got_iter(s, itv):
+            if isinstance(itv, SOptRef):
+                return self.branch(s, itv.t != 0, lambda s_: got_iter(s_, SRef(itv.t, itv.inner)),
+                                   lambda s_: self.raise_new(s_, "TypeError"), "optional-iter")
             setup = self.iter_setup(n, itv, s, fr)
             if setup is None:
                 # constant sequence: unroll
